@@ -11,7 +11,7 @@ ID = "C18"
 LEVEL = "exploration"
 NEEDS_DEPS = True
 RULE = (
-    "PriorityQueue: every valid operation sequence (push of an unqueued item, pop incl. pop-on-empty, "
+    "PriorityQueue: every operation sequence (push of an unqueued item and of an item that is still queued - refusal or score replacement accepted -, pop incl. pop-on-empty, "
     "change_score of a queued item; lookups/len/is_empty of all items checked after every step) up to depth D "
     "over items {0,1,2} x a 3-value score domain (scalar, equal-length tuples, mixed-length tuples) "
     "[D=5 quick, 6 thorough; sanitizer lane one less], plus random histories of length <=300 over <=12 items aimed at root/inner/leaf "
@@ -23,7 +23,7 @@ RULE = (
 EXHAUSTIVE = {"quick": False, "thorough": False}
 REQUIRED_COUNTERS = ["pq_ops", "pq_pops_checked", "cf_finds_checked", "cf_invariant_evals"]
 ASSUMPTIONS = [
-    "API preconditions respected as readselect does: no duplicate push, change_score only for queued items",
+    "a push of a queued item and a change_score of an unqueued one may be refused or (push) replace the score; the queue must stay consistent",
     "any maximal-score item is accepted on pop (ties are not ordered by the statement)",
 ]
 
@@ -79,9 +79,22 @@ class PQModel:
 
     def push(self, score, item):
         self.log.append(("push", score, item))
+        self.c["pq_ops"] = self.c.get("pq_ops", 0) + 1
+        if item in self.m:
+            # pushing an item that is still queued: the statement speaks of "the scores last assigned" and "exactly the items still
+            # queued", i.e. one entry per item. Refusing (an exception, nothing changes) and replacing the score are both
+            # accepted; which of the two happened is read off len(); a second entry for the item is a corrupted queue
+            self.c["pq_push_queued_item"] = self.c.get("pq_push_queued_item", 0) + 1
+            try:
+                self.q.push(score, item)
+            except (KeyError, ValueError):
+                return
+            if len(self.q) != len(self.m):
+                raise Viol("push(%r, %r) of an item that is still queued left %d entries for %d items after %s" % (score, item, len(self.q), len(self.m), self.log))
+            self.m[item] = score
+            return
         self.q.push(score, item)
         self.m[item] = score
-        self.c["pq_ops"] = self.c.get("pq_ops", 0) + 1
 
     def change(self, item, score):
         self.log.append(("change", item, score))
@@ -155,6 +168,8 @@ def _pq_exhaustive(PQ, domain, first, depth, counters, keys):
                     out.append(("push", s, it))
             if it not in model_items:
                 out.append(("change", it, domain[0]))  # an item that is not queued
+            else:
+                out.append(("push", domain[-1], it))  # an item that is still queued
         out.append(("pop",))
         return out
 
@@ -215,6 +230,13 @@ def _pq_random(PQ, rng, counters):
     for _ in range(L):
         r = rng.random()
         free = [i for i in universe if i not in mo.m]
+        if r > 0.97 and mo.m:
+            it = rng.choice(list(mo.m))
+            s = score()
+            mo.push(s, it)  # an item that is still queued
+            ops.append(("push", s, it))
+            mo.check_lookups(universe)
+            continue
         if (r < 0.4 and free) or not mo.m:
             if not free:
                 mo.pop()
